@@ -393,7 +393,7 @@ def gen_graph_specs(ctx):
         rng.shuffle(order)
         specs.append(('dag4', mk('opt', pl, order)))
     # random: 4..6 nodes, cyclic or not, any listing order, real-looking uids now and then
-    n_rand = ctx.budget(700, 10000)
+    n_rand = ctx.budget(700, 9000)
     for _ in range(n_rand):
         n = rng.choice([4, 4, 4, 5, 5, 6])
         dag = rng.random() < 0.5
@@ -650,7 +650,7 @@ PRE = _make_pre()
 def gen_ind_specs(ctx):
     rng = ctx.rng
     out = []
-    n_ind = ctx.budget(450, 4000)
+    n_ind = ctx.budget(450, 3500)
     for i in range(n_ind):
         n = rng.choice([1, 2, 3, 4])
         pl = [[p for p in range(c) if rng.random() < 0.5] for c in range(n)]
@@ -787,7 +787,7 @@ def observe_load(tree, kind):
 
 def run_json_load(ctx):
     rng = ctx.rng
-    n = ctx.budget(250, 2000)
+    n = ctx.budget(250, 1800)
     cases, meta = [], []
     specs = [s for o, s in gen_graph_specs_small(ctx, n)]
     for spec in specs:
@@ -1022,7 +1022,7 @@ def lock_case(vo, vl, steps, tamper=False):
 
 def gen_lock_specs(ctx):
     rng = ctx.rng
-    n_seq = ctx.budget(1300, 11000)
+    n_seq = ctx.budget(1300, 10000)
     out = []
     counter = [0]
     for i in range(n_seq):
